@@ -6,6 +6,7 @@ CONSTANTS n1 = n1
  Byz = {}
  NV = 1
  Cands = {"A", "B"}
+ DecCands = {"A", "B"}
  ThrMinus = 0
  ExVerify = TRUE
  AggVerify = TRUE
@@ -13,6 +14,7 @@ CONSTANTS n1 = n1
  MaxBad = 1
  MaxCrash = 1
  ByzClaims = "own"
+ HonestBatches = "any"
 INVARIANTS Safety
 PROPERTIES StoredStable RejectKeeps
 VIEW View
